@@ -93,12 +93,43 @@ def BG (b : Bool) (x : Ctx) : Prop := AllGood b x.bound
 theorem bind_good {b x as} (h : BG b x) (ha : AllGood b as) : BG b (x.bind as) := by
   simp only [BG, Ctx.bind, allGood_append]; exact ⟨h, ha⟩
 
+@[simp] theorem sqlInsertItem_bound (db pid kind c n v g) :
+    (sqlInsertItem db pid kind c n v g).2.2 = [Src.nat pid, Src.nat kind, c, n, v, Src.null] := by
+  unfold sqlInsertItem; split <;> rfl
+@[simp] theorem sqlUpdateItem_bound (db pid kind c n v g) :
+    (sqlUpdateItem db pid kind c n v g).2.2 = [Src.nat pid, Src.nat kind, c, n, v, Src.null] := by
+  unfold sqlUpdateItem; split <;> rfl
+@[simp] theorem sqlDeleteTags_bound (db id) : (sqlDeleteTags db id).2 = [Src.nat id] := rfl
+@[simp] theorem sqlDeleteItem_bound (db pid kind c n) :
+    (sqlDeleteItem db pid kind c n).2.2 = [Src.nat pid, Src.nat kind, c, n] := rfl
+@[simp] theorem sqlDeleteAll_bound (like db pid kind c f) :
+    (sqlDeleteAll like db pid kind c f).2.2 = scopeBound pid kind c f := rfl
+@[simp] theorem sqlSelect_bound (like db pid kind c f) :
+    (sqlSelect like db pid kind c f).2 = scopeBound pid kind c f := rfl
+@[simp] theorem sqlFetch_bound (db pid kind c n) :
+    (sqlFetch db pid kind c n).2 = [Src.nat pid, Src.nat kind, c, n] := rfl
+@[simp] theorem sqlInsertProfile_bound (db n k kid) : (sqlInsertProfile db n k kid).2.2 = [n, k] := by
+  unfold sqlInsertProfile; split <;> rfl
+@[simp] theorem sqlDeleteProfile_bound (db n) : (sqlDeleteProfile db n).2.2 = [n] := rfl
+@[simp] theorem sqlSelectProfile_bound (db n) : (sqlSelectProfile db n).2 = [n] := rfl
+@[simp] theorem sqlUpdateProfileKey_bound (db k pid) : (sqlUpdateProfileKey db k pid).2 = [k, Src.nat pid] := rfl
+
+theorem scopeBound_good (b : Bool) (C : Crypto) (k pid kind cat f) :
+    AllGood b (scopeBound pid kind (encCatOpt C k cat) (encodeFilter C k f)) := by
+  unfold scopeBound
+  rw [allGood_append]
+  constructor
+  · cases cat <;> simp [allGood_cons, encCatOpt]
+  · split
+    · simp
+    · exact encodeFilter_good b C k f
+
 theorem resolveP_good {b s x p} (h : BG b x) :
     BG b (resolveP s x p).2.1 ∧ (resolveP s x p).1.storeKey = s.storeKey := by
   unfold resolveP
   split
   · exact ⟨h, rfl⟩
-  · simp only [sqlSelectProfile]
+  · simp only
     split <;> exact ⟨bind_good h (by simp [allGood_cons]), rfl⟩
 
 theorem insertTags_good (b : Bool) (C : Crypto) (k : Nat) (id : Nat) :
@@ -114,6 +145,273 @@ theorem encTags_good (b : Bool) (C : Crypto) (k id : Nat) (tags : Option (List T
   cases tags with
   | none => simp [insertTags]
   | some ts => exact insertTags_good b C k id ts db
+
+theorem update_good {b C rng s x p kind ins cat name value tags} (h : BG b x) :
+    BG b (update C rng s x p kind ins cat name value tags).2.1 ∧
+    (update C rng s x p kind ins cat name value tags).1.storeKey = s.storeKey := by
+  unfold update
+  have hr := @resolveP_good b s x p h
+  split
+  · rename_i s' x' e heq; rw [heq] at hr; exact hr
+  · rename_i s' x' pid k heq
+    rw [heq] at hr
+    obtain ⟨hx, hs⟩ := hr
+    simp only at hx hs
+    have hx' : BG b { x' with ctr := x'.ctr + 1, sealed := x'.sealed ++ [(x'.ctr, C.sealValue k (Src.category cat) (Src.name name) (rng x'.ctr) (Src.value value))] } := hx
+    simp only
+    split
+    · split
+      · exact ⟨bind_good hx' (by simp [allGood_cons]), hs⟩
+      · exact ⟨bind_good (bind_good hx' (by simp [allGood_cons])) (encTags_good b C k _ tags _), hs⟩
+    · split
+      · exact ⟨bind_good hx' (by simp [allGood_cons]), hs⟩
+      · exact ⟨bind_good (bind_good (bind_good hx' (by simp [allGood_cons])) (by simp [allGood_cons])) (encTags_good b C k _ tags _), hs⟩
+
+theorem remove_good {b C s x p kind cat name} (h : BG b x) :
+    BG b (remove C s x p kind cat name).2.1 ∧ (remove C s x p kind cat name).1.storeKey = s.storeKey := by
+  unfold remove
+  have hr := @resolveP_good b s x p h
+  split
+  · rename_i s' x' e heq; rw [heq] at hr; exact hr
+  · rename_i s' x' pid k heq
+    rw [heq] at hr
+    obtain ⟨hx, hs⟩ := hr
+    simp only at hx hs ⊢
+    split <;> exact ⟨bind_good hx (by simp [allGood_cons]), hs⟩
+
+theorem removeAll_good {b C like s x p kind cat f} (h : BG b x) :
+    BG b (removeAll C like s x p kind cat f).2.1 ∧ (removeAll C like s x p kind cat f).1.storeKey = s.storeKey := by
+  unfold removeAll
+  have hr := @resolveP_good b s x p h
+  split
+  · rename_i s' x' e heq; rw [heq] at hr; exact hr
+  · rename_i s' x' pid k heq
+    rw [heq] at hr
+    obtain ⟨hx, hs⟩ := hr
+    simp only at hx hs ⊢
+    exact ⟨bind_good hx (by simpa using scopeBound_good b C k pid kind cat f), hs⟩
+
+theorem select_good {b C like s x p kind cat f} (h : BG b x) :
+    BG b (select C like s x p kind cat f).2.1 ∧ (select C like s x p kind cat f).1.storeKey = s.storeKey := by
+  unfold select
+  have hr := @resolveP_good b s x p h
+  split
+  · rename_i s' x' e heq; rw [heq] at hr; exact hr
+  · rename_i s' x' pid k heq
+    rw [heq] at hr
+    obtain ⟨hx, hs⟩ := hr
+    simp only at hx hs ⊢
+    exact ⟨bind_good hx (by simpa using scopeBound_good b C k pid kind cat f), hs⟩
+
+theorem fetch_good {b C s x p kind cat name} (h : BG b x) :
+    BG b (fetch C s x p kind cat name).2.1 ∧ (fetch C s x p kind cat name).1.storeKey = s.storeKey := by
+  unfold fetch
+  have hr := @resolveP_good b s x p h
+  split
+  · rename_i s' x' e heq; rw [heq] at hr; exact hr
+  · rename_i s' x' pid k heq
+    rw [heq] at hr
+    obtain ⟨hx, hs⟩ := hr
+    simp only at hx hs ⊢
+    exact ⟨bind_good hx (by simp [allGood_cons]), hs⟩
+
+theorem wrapProfileKey_good {b C rng sk x k} (h : BG b x) (hk : b = false → sk.isSome) :
+    Good b (wrapProfileKey C rng sk x k).1 ∧ BG b (wrapProfileKey C rng sk x k).2 := by
+  unfold wrapProfileKey
+  refine ⟨good_wrap b C sk _ k hk, ?_⟩
+  simp only; split <;> exact h
+
+theorem createProfile_good {b C rng s x name} (h : BG b x) (hk : b = false → s.storeKey.isSome) :
+    BG b (createProfile C rng s x name).2.1 ∧ (createProfile C rng s x name).1.storeKey = s.storeKey := by
+  unfold createProfile
+  have hx0 : BG b { x with nextKey := x.nextKey + 1 } := h
+  have hw := @wrapProfileKey_good b C rng s.storeKey _ x.nextKey hx0 hk
+  simp only
+  split <;> exact ⟨bind_good hw.2 (by simp [allGood_cons, hw.1]), rfl⟩
+
+theorem removeProfile_good {b s x name} (h : BG b x) :
+    BG b (removeProfile s x name).2.1 ∧ (removeProfile s x name).1.storeKey = s.storeKey := by
+  unfold removeProfile
+  exact ⟨bind_good h (by simp [allGood_cons]), rfl⟩
+
+theorem setDefault_good {b s x name} (h : BG b x) :
+    BG b (setDefault s x name).2 ∧ (setDefault s x name).1.storeKey = s.storeKey := by
+  unfold setDefault
+  exact ⟨bind_good h (by simp [allGood_cons]), rfl⟩
+
+theorem reopen_good {b s x} (h : BG b x) : BG b (reopen s x).2 ∧ (reopen s x).1.storeKey = s.storeKey := by
+  unfold reopen
+  simp only
+  split <;> exact ⟨bind_good h (by simp [allGood_cons]), rfl⟩
+
+theorem newStoreKey_good {b m x} (h : BG b x) : BG b (newStoreKey m x).2 ∧ (m ≠ .none → (newStoreKey m x).1.isSome) := by
+  unfold newStoreKey
+  cases m <;> simp <;> exact h
+
+theorem rewrapAll_good {b C rng sk} (hk : b = false → sk.isSome) :
+    ∀ (ps : List PProfile) (db : PDb) (x : Ctx), BG b x → BG b (rewrapAll C rng sk ps db x).2
+  | [], db, x, h => by simpa [rewrapAll] using h
+  | p :: ps, db, x, h => by
+    simp only [rewrapAll]
+    have hw := @wrapProfileKey_good b C rng sk x p.keyId h hk
+    exact rewrapAll_good hk ps _ _ (bind_good hw.2 (by simp [allGood_cons, hw.1]))
+
+theorem rekey_good {b C rng s x m} (h : BG b x) (hm : b = false → m ≠ .none) :
+    BG b (rekey C rng s x m).2 ∧ (b = false → (rekey C rng s x m).1.storeKey.isSome) := by
+  unfold rekey
+  have hn := @newStoreKey_good b m x h
+  simp only
+  refine ⟨bind_good (rewrapAll_good (fun hb => hn.2 (hm hb)) _ _ _ hn.1) (by simp [allGood_cons]), fun hb => hn.2 (hm hb)⟩
+
+theorem provision_good {b C rng x m profile} (h : BG b x) (hm : b = false → m ≠ .none) :
+    BG b (provision C rng x m profile).2 ∧ (b = false → (provision C rng x m profile).1.storeKey.isSome) := by
+  unfold provision
+  have hn := @newStoreKey_good b m x h
+  have hx0 : BG b { (newStoreKey m x).2 with nextKey := (newStoreKey m x).2.nextKey + 1 } := hn.1
+  have hw := @wrapProfileKey_good b C rng (newStoreKey m x).1 _ (newStoreKey m x).2.nextKey hx0 (fun hb => hn.2 (hm hb))
+  simp only
+  exact ⟨bind_good hw.2 (by simp [allGood_cons, hw.1]), fun hb => hn.2 (hm hb)⟩
+
+theorem insertKey_good {b C rng s x p n md jwk alg thumbs tags} (h : BG b x) :
+    BG b (insertKey C rng s x p n md jwk alg thumbs tags).2.1 ∧
+    (insertKey C rng s x p n md jwk alg thumbs tags).1.storeKey = s.storeKey := by
+  unfold insertKey; exact update_good h
+
+theorem importRows_good {b C rng profile} :
+    ∀ (es : List Entry) (t : PStore) (x : Ctx), BG b x →
+      BG b (importRows C rng profile es t x).2.1 ∧ (importRows C rng profile es t x).1.storeKey = t.storeKey
+  | [], t, x, h => by simpa [importRows] using h
+  | e :: es, t, x, h => by
+    simp only [importRows]
+    have hu := @update_good b C rng t x profile e.kind true e.cat e.name e.value (some e.tags) h
+    split
+    · rename_i t' x' err heq; rw [heq] at hu; exact hu
+    · rename_i t' x' heq
+      rw [heq] at hu
+      have := importRows_good (b := b) (C := C) (rng := rng) (profile := profile) es t' x' hu.1
+      exact ⟨this.1, this.2.trans hu.2⟩
+
+theorem copyProfiles_good {b C rng like} :
+    ∀ (ps : List PProfile) (src t : PStore) (x : Ctx), BG b x → (b = false → t.storeKey.isSome) →
+      BG b (copyProfiles C rng like ps src t x).2.2.1 ∧
+      (copyProfiles C rng like ps src t x).1.storeKey = src.storeKey ∧
+      (copyProfiles C rng like ps src t x).2.1.storeKey = t.storeKey
+  | [], src, t, x, h, _ => by simpa [copyProfiles] using h
+  | p :: ps, src, t, x, h, hk => by
+    simp only [copyProfiles]
+    generalize hpn : (String.fromUTF8? (ByteArray.mk p.name.bytes.toArray)).getD "" = pname
+    have hs := @select_good b C like src x pname none none none h
+    split
+    · rename_i src' x' e heq; rw [heq] at hs; exact ⟨hs.1, hs.2, rfl⟩
+    · rename_i src' x' k rows heq
+      rw [heq] at hs
+      split
+      · exact ⟨hs.1, hs.2, rfl⟩
+      · have hc := @createProfile_good b C rng t x' pname hs.1 hk
+        have hs2 := @select_good b C like (createProfile C rng t x' pname).1 (createProfile C rng t x' pname).2.1 pname none none none hc.1
+        split
+        · rename_i t' x'' e heq2; rw [heq2] at hs2; exact ⟨hs2.1, hs.2, hs2.2.trans hc.2⟩
+        · rename_i t' x'' k2 existing heq2
+          rw [heq2] at hs2
+          split
+          · exact ⟨hs2.1, hs.2, hs2.2.trans hc.2⟩
+          · have hi := @importRows_good b C rng pname (rows.map (·.plain)) t' x'' hs2.1
+            split
+            · rename_i t'' x3 e heq3; rw [heq3] at hi; exact ⟨hi.1, hs.2, hi.2.trans (hs2.2.trans hc.2)⟩
+            · rename_i t'' x3 heq3
+              rw [heq3] at hi
+              have hk' : b = false → t''.storeKey.isSome := fun hb => by
+                rw [hi.2, hs2.2, hc.2]; exact hk hb
+              have := copyProfiles_good (b := b) (C := C) (rng := rng) (like := like) ps src' t'' x3 hi.1 hk'
+              exact ⟨this.1, this.2.1.trans hs.2, this.2.2.trans (hi.2.trans (hs2.2.trans hc.2))⟩
+
+theorem copyTo_good {b C rng like src x m} (h : BG b x) (hm : b = false → m ≠ .none) :
+    BG b (copyTo C rng like src x m).2.2.1 ∧ (copyTo C rng like src x m).1.storeKey = src.storeKey ∧
+    (b = false → (copyTo C rng like src x m).2.1.storeKey.isSome) := by
+  unfold copyTo
+  have hx0 : BG b (x.bind [Src.metaStr "default_profile"]) := bind_good h (by simp [allGood_cons])
+  have hp := @provision_good b C rng _ m (defaultProfile src.db) hx0 hm
+  have := copyProfiles_good (b := b) (C := C) (rng := rng) (like := like) src.db.profiles src _ _ hp.1 hp.2
+  simp only
+  exact ⟨this.1, this.2.1, fun hb => by rw [this.2.2]; exact hp.2 hb⟩
+
+/-! #### histories -/
+
+def Inv (b : Bool) (st : St) : Prop := BG b st.ctx ∧ (b = false → st.main.storeKey.isSome)
+
+theorem step_inv {b C rng like st} (op : Op) (h : Inv b st) (hop : b = false → op.keepsProtected = true) :
+    Inv b (step C rng like st op).1 := by
+  obtain ⟨hx, hk⟩ := h
+  cases op with
+  | update p k ins c n v t =>
+    have := @update_good b C rng st.main st.ctx p k ins c n v t hx
+    exact ⟨this.1, fun hb => by simp only [step]; rw [this.2]; exact hk hb⟩
+  | remove p k c n =>
+    have := @remove_good b C st.main st.ctx p k c n hx
+    exact ⟨this.1, fun hb => by simp only [step]; rw [this.2]; exact hk hb⟩
+  | removeAll p k c f =>
+    have := @removeAll_good b C like st.main st.ctx p k c f hx
+    exact ⟨this.1, fun hb => by simp only [step]; rw [this.2]; exact hk hb⟩
+  | fetch p k c n =>
+    have := @fetch_good b C st.main st.ctx p k c n hx
+    exact ⟨this.1, fun hb => by simp only [step]; rw [this.2]; exact hk hb⟩
+  | count p k c f =>
+    have := @select_good b C like st.main st.ctx p k c f hx
+    exact ⟨this.1, fun hb => by simp only [step]; rw [this.2]; exact hk hb⟩
+  | scan p k c f =>
+    have := @select_good b C like st.main st.ctx p k c f hx
+    exact ⟨this.1, fun hb => by simp only [step]; rw [this.2]; exact hk hb⟩
+  | insertKey p n m jwk alg thumbs t =>
+    have := @insertKey_good b C rng st.main st.ctx p n m jwk alg thumbs t hx
+    exact ⟨this.1, fun hb => by simp only [step]; rw [this.2]; exact hk hb⟩
+  | createProfile n =>
+    have := @createProfile_good b C rng st.main st.ctx n hx hk
+    exact ⟨this.1, fun hb => by simp only [step]; rw [this.2]; exact hk hb⟩
+  | removeProfile n =>
+    have := @removeProfile_good b st.main st.ctx n hx
+    exact ⟨this.1, fun hb => by simp only [step]; rw [this.2]; exact hk hb⟩
+  | setDefault n =>
+    have := @setDefault_good b st.main st.ctx n hx
+    exact ⟨this.1, fun hb => by simp only [step]; rw [this.2]; exact hk hb⟩
+  | rekey m =>
+    have hm : b = false → m ≠ .none := fun hb hm => by subst hm; simpa [Op.keepsProtected] using hop hb
+    have := @rekey_good b C rng st.main st.ctx m hx hm
+    exact ⟨this.1, this.2⟩
+  | copy m =>
+    have hm : b = false → m ≠ .none := fun hb hm => by subst hm; simpa [Op.keepsProtected] using hop hb
+    have := @copyTo_good b C rng like st.main st.ctx m hx hm
+    exact ⟨this.1, fun hb => by simp only [step]; rw [this.2.1]; exact hk hb⟩
+  | checkpoint => exact ⟨hx, hk⟩
+  | reopen =>
+    have := @reopen_good b st.main st.ctx hx
+    exact ⟨this.1, fun hb => by simp only [step]; rw [this.2]; exact hk hb⟩
+
+theorem run_inv {b C rng like} : ∀ (ops : List Op) (st : St), Inv b st → (b = false → ∀ op ∈ ops, op.keepsProtected = true) →
+    Inv b (run C rng like st ops).1
+  | [], st, h, _ => by simpa [run] using h
+  | op :: ops, st, h, hops => by
+    simp only [run]
+    exact run_inv ops _ (step_inv op h (fun hb => hops hb op (List.mem_cons_self ..)))
+      (fun hb o ho => hops hb o (List.mem_cons_of_mem _ ho))
+
+theorem init_inv {b C rng m p} (hm : b = false → m ≠ .none) : Inv b (init C rng m p) := by
+  have := @provision_good b C rng {} m p (by simp [BG]) hm
+  exact ⟨this.1, this.2⟩
+
+theorem no_plain_secret_bound (C : Crypto) (rng : Nat → Nonce) (like : Bytes → Bytes → Bool) (m : Method) (p : String)
+    (ops : List Op) (hm : m ≠ .none) (hops : ∀ op ∈ ops, op.keepsProtected = true) :
+    ∀ a ∈ boundArgs (run C rng like (init C rng m p) ops).1, a.prov.isSecretPlain = false := by
+  intro a ha
+  have h := (run_inv (b := false) (C := C) (rng := rng) (like := like) ops _ (init_inv (fun _ => hm)) (fun _ => hops)).1 a ha
+  cases hp : a.prov with
+  | secretPlain f => have := h f hp; simp at this
+  | _ => rfl
+
+theorem only_profile_key_plain (C : Crypto) (rng : Nat → Nonce) (like : Bytes → Bytes → Bool) (m : Method) (p : String)
+    (ops : List Op) :
+    ∀ a ∈ boundArgs (run C rng like (init C rng m p) ops).1, ∀ f, a.prov = .secretPlain f → f = .profileKey := by
+  intro a ha f hf
+  exact ((run_inv (b := true) (C := C) (rng := rng) (like := like) ops _ (init_inv (by simp)) (by simp)).1 a ha f hf).2
 
 end Lemmas
 end Askar.Provenance
